@@ -452,6 +452,106 @@ fn header_case(rep: &mut Reporter, seed: u64) {
     }
 }
 
+
+/// (iv) the per-connection stream table of the wire (hook `StreamsProbe`): the remote peer opens streams
+/// with identifiers of its choosing (`open` control frames), the local side opens streams for its own
+/// fetches and streams get closed, in random interleavings. Nothing the remote chooses may make a local
+/// `open` panic, and a locally opened stream gets a fresh identifier from our own identifier space.
+fn streams_case(rep: &mut Reporter, seed: u64) {
+    use radicle_node::wire::verif::{StreamId, StreamKind, StreamsProbe, VarInt};
+    use radicle_node::wire::{Decode as _, Encode as _};
+    let mut rng = Rng::new(seed);
+    let link = if rng.bool() { Link::Inbound } else { Link::Outbound };
+    let other = if link == Link::Inbound { Link::Outbound } else { Link::Inbound };
+    let raw = |v: u64| -> Option<StreamId> {
+        let vi = VarInt::new(v).ok()?;
+        let mut b = vec![];
+        vi.encode(&mut b).ok()?;
+        StreamId::decode(&mut &b[..]).ok()
+    };
+    let mut probe = StreamsProbe::new(link);
+    let mut open: std::collections::BTreeSet<u64> = Default::default();
+    let mut local_opens = 0u64; // = the table's sequence number
+    let mut log: Vec<String> = vec![];
+    let mut hostile_pending = false;
+    rep.eval();
+    for _ in 0..(20 + rng.usize(60)) {
+        match rng.below(10) {
+            0..=4 => {
+                // remote `open`
+                let (sid, what) = match rng.below(8) {
+                    0 | 1 => (StreamId::git(link).nth(local_opens + 1).ok(), "next-id-of-our-own-space"),
+                    2 => (StreamId::git(link).nth(local_opens + 1 + rng.below(4)).ok(), "upcoming-id-of-our-own-space"),
+                    3 => (StreamId::git(other).nth(rng.below(8)).ok(), "id-of-the-remote-space"),
+                    4 => (Some(if rng.bool() { StreamId::control(link) } else { StreamId::gossip(other) }), "control-or-gossip-id"),
+                    5 => (raw(rng.u64() >> 2), "random-62-bit"),
+                    6 => (open.iter().next().and_then(|v| raw(*v)), "already-open-id"),
+                    _ => (raw(rng.below(64)), "small"),
+                };
+                let Some(sid) = sid else { continue };
+                let v: u64 = sid.into();
+                let r = guarded(|| probe.remote_open(sid));
+                match r {
+                    Ok(accepted) => {
+                        log.push(format!("remote_open({v}: {what}) -> {accepted}"));
+                        rep.count(&format!("streams.remote-open:{what}"));
+                        if accepted {
+                            if !open.insert(v) {
+                                rep.violation("C13/wire-streams/remote-open-accepted-for-an-open-stream", json!({"case_seed": seed, "link": format!("{link:?}"), "log": log}));
+                                return;
+                            }
+                            if sid.link() == link && sid.kind() == Ok(StreamKind::Git) {
+                                hostile_pending = true;
+                            }
+                        }
+                    }
+                    Err(p) => {
+                        rep.violation(&format!("C13/panic/wire-streams/remote-open/{}", vcommon::panic_site(&p)), json!({"case_seed": seed, "link": format!("{link:?}"), "panic": p, "log": log}));
+                        return;
+                    }
+                }
+            }
+            5..=7 => {
+                let r = guarded(|| probe.local_open());
+                local_opens += 1;
+                rep.count("streams.local-opens");
+                if hostile_pending {
+                    rep.count("streams.local-opens-while-remote-holds-an-id-of-our-space");
+                }
+                match r {
+                    Ok(sid) => {
+                        let v: u64 = sid.into();
+                        log.push(format!("local_open() -> {v}"));
+                        if sid.link() != link || sid.kind() != Ok(StreamKind::Git) || !open.insert(v) {
+                            rep.violation("C13/wire-streams/local-open-returned-foreign-or-open-id", json!({"case_seed": seed, "link": format!("{link:?}"), "log": log}));
+                            return;
+                        }
+                    }
+                    Err(p) => {
+                        log.push("local_open() -> PANIC".into());
+                        rep.violation(&format!("C13/panic/wire-streams/local-open/{}", vcommon::panic_site(&p)), json!({"case_seed": seed, "link": format!("{link:?}"), "panic": p, "log": log}));
+                        return;
+                    }
+                }
+            }
+            _ => {
+                if let Some(v) = open.iter().nth(rng.usize(open.len().max(1))).copied() {
+                    if let Some(sid) = raw(v) {
+                        let closed = guarded(|| probe.close(&sid)).unwrap_or(false);
+                        log.push(format!("close({v}) -> {closed}"));
+                        open.remove(&v);
+                        if !closed {
+                            rep.violation("C13/wire-streams/open-stream-not-in-table", json!({"case_seed": seed, "log": log}));
+                            return;
+                        }
+                    }
+                }
+            }
+        }
+    }
+    rep.count("streams.cases");
+}
+
 pub fn run(args: &Args) {
     if args.mode.as_deref() == Some("child-bytes") {
         child_bytes(args);
@@ -460,6 +560,9 @@ pub fn run(args: &Args) {
     let mut rep = Reporter::new("C13");
     if let Some(path) = &args.replay {
         let w = vcommon::load_replay(path);
+        if w["log"].is_array() && w["link"].is_string() {
+            streams_case(&mut rep, w["case_seed"].as_u64().unwrap_or(0));
+        }
         if let Some(h) = w["bytes_hex"].as_str() {
             if w.get("length_field").is_some() {
                 let b = unhex(h).unwrap();
@@ -474,6 +577,9 @@ pub fn run(args: &Args) {
     }
     for k in 0..args.budget(3_200, 32_000) {
         service_case(&mut rep, args.case_seed(k));
+    }
+    for k in 0..args.budget(40_000, 800_000) {
+        streams_case(&mut rep, args.case_seed(5_000_000_000 + k));
     }
     bytes_level(&mut rep, args, args.budget(160_000, 1_600_000));
     for k in 0..args.budget(160_000, 1_600_000) {
